@@ -135,6 +135,8 @@ def gen_lifetime(tier: str) -> Iterator[dict]:
         (["speed = 100", "speed = 250", "period = speed * 2", "mon.write(period)"], ["mon.write(period + speed)"]),
         (["n = 0"], ["for i in range(4):", "    if i == 1:", "        continue", "    mon.write(i)", "n += 1", "mon.write(n)"]),
         (["n = 0"], ["n += 1", "if n == 2:", "    continue", "mon.write(n)"]),
+        (["n = 0"], ["n += 1", "try:", "    if n == 2:", "        continue", "except:", "    n = 0", "mon.write(n)"]),
+        (["n = 0"], ["n += 1", "try:", "    n = n + 0", "except:", "    continue", "if n == 3:", "    continue", "mon.write(n)"]),
         (["n = 0"], ["k = 0", "while k < 3:", "    k += 1", "    if k == 2:", "        continue", "    mon.write(k)", "n += 1", "mon.write(n)"]),
     ]
     passes_list = [0, 1, 2, 3]
@@ -146,7 +148,11 @@ def gen_lifetime(tier: str) -> Iterator[dict]:
         (["break"], True),
         (["if n > 1:", "    break"], True),
         (["n += 1", "if n == 2:", "    if n > 0:", "        break"], True),
+        (["try:", "    break", "except:", "    n = 0"], True),
+        (["try:", "    n += 1", "except:", "    break"], True),
+        (["try:", "    if n > 1:", "        break", "except:", "    n = 0"], True),
         (["for i in range(3):", "    if i == 1:", "        break", "    mon.write(i)"], False),
+        (["for i in range(3):", "    try:", "        if i == 1:", "            break", "    except:", "        n = 0", "    mon.write(i)"], False),
         (["k = 0", "while k < 5:", "    k += 1", "    if k == 2:", "        break", "mon.write(k)"], False),
         (["for i in range(2):", "    for j in range(3):", "        if j == 1:", "            break", "        mon.write(j)", "    mon.write(i)"], False),
     ]
